@@ -14,38 +14,47 @@
 EXTENDS Integers, Sequences, FiniteSets, TLC, Json
 
 (* ------------------------------- Part 1 ------------------------------- *)
-Shapes == {"top_delegated", "nested_delegated", "delegatecall_from_ordinary", "ordinary_self",
-           "static_into_delegated", "create_transaction"}
-(* is the frame that executes CREATE one whose context account carries a designator? *)
-ContextDelegated(shape) == shape \in {"top_delegated", "nested_delegated", "static_into_delegated"}
-Static(shape) == shape = "static_into_delegated"
-GuardActive(guard, prague) == guard /\ prague
+(* A case is a call path that ends in a frame executing CREATE / CREATE2:
+     <<e>>        the transaction calls e directly,
+     <<t, k, e>>  the transaction calls t, whose code makes one hop of kind k to e,
+     <<"tx">>     a top-level create transaction (no executing frame owns the create).
+   U, U2 are EOAs that carry a delegation designator (U -> forwarder code, U2 -> creator code);
+   F is the ordinary forwarder contract, T the ordinary creator contract.
+   EVM frame rule: CALL / STATICCALL run the callee's code in the callee's context; DELEGATECALL /
+   CALLCODE run the callee's code in the caller's context. The guard looks at the CONTEXT account. *)
+Kinds == {"CALL", "DELEGATECALL", "CALLCODE", "STATICCALL"}
+Tops == {"U", "F"}
+Ends == {"U2", "T"}
+Paths == {<<e>> : e \in Ends} \cup {<<t, k, e>> : t \in Tops, k \in Kinds, e \in Ends} \cup {<<"tx">>}
+Forks == {"CANCUN", "PRAGUE", "OSAKA", "AMSTERDAM"}
+PragueOrLater(f) == f # "CANCUN"
+HasDesignator(a, f) == a \in {"U", "U2"}       \* the designator is in the pre-state on every fork
+ContextOf(p) == IF Len(p) = 1 THEN p[1] ELSE IF p[2] \in {"DELEGATECALL", "CALLCODE"} THEN p[1] ELSE p[3]
+Static(p) == Len(p) = 3 /\ p[2] = "STATICCALL"
+ContextDelegated(p, f) == p # <<"tx">> /\ HasDesignator(ContextOf(p), f)
+GuardActive(guard, f) == guard /\ PragueOrLater(f)
 
 (* what the creating frame does *)
-FrameResult(shape, guard, prague) ==
-  IF Static(shape) THEN "state_change_during_static_call"          \* as stock revm, checked first
-  ELSE IF GuardActive(guard, prague) /\ ContextDelegated(shape) THEN "halt_not_activated"
-  ELSE "creates"
-(* what the transaction reports *)
-TxKind(shape, guard, prague) ==
-  IF shape = "top_delegated" /\ FrameResult(shape, guard, prague) = "halt_not_activated" THEN "halt" ELSE "success"
-(* does the delegated account's nonce advance (which would invalidate its own later transaction)? *)
-NonceAdvanced(shape, guard, prague) ==
-  ContextDelegated(shape) /\ FrameResult(shape, guard, prague) = "creates"
-(* success flag an enclosing caller stores for the inner call *)
-InnerCallFlag(shape, guard, prague) == IF FrameResult(shape, guard, prague) = "creates" THEN 1 ELSE 0
+FrameResult(p, guard, f) ==
+  IF Static(p) THEN "state_change_during_static_call"          \* as stock revm
+  ELSE IF GuardActive(guard, f) /\ ContextDelegated(p, f) THEN "halt_not_activated"
+  ELSE "creates"                                                     \* i.e. whatever stock revm does
+Halts(p, guard, f) == FrameResult(p, guard, f) = "halt_not_activated"
+(* does the context account's nonce advance (for a delegated EOA that invalidates its own later transaction)? *)
+NonceAdvanced(p, guard, f) == p # <<"tx">> /\ FrameResult(p, guard, f) = "creates"
 
 CreateCases ==
-  { [shape |-> s, create2 |-> c, guard |-> g, prague |-> p,
-     frame |-> FrameResult(s, g, p), kind |-> TxKind(s, g, p), nonce_advanced |-> NonceAdvanced(s, g, p),
-     flag |-> InnerCallFlag(s, g, p)] : s \in Shapes, c \in BOOLEAN, g \in BOOLEAN, p \in BOOLEAN }
+  { [path |-> p, create2 |-> c, guard |-> g, fork |-> f, context |-> IF p = <<"tx">> THEN "none" ELSE ContextOf(p),
+     frame |-> FrameResult(p, g, f), halts |-> Halts(p, g, f),
+     context_delegated |-> ContextDelegated(p, f), nonce_advanced |-> NonceAdvanced(p, g, f)]
+    : p \in Paths, c \in BOOLEAN, g \in BOOLEAN, f \in Forks }
 
 (* the guard changes nothing outside delegated contexts, and nothing at all before Prague or when off *)
 GuardIsExact ==
   \A c \in CreateCases :
-     (c.frame # FrameResult(c.shape, FALSE, c.prague)) => (c.guard /\ c.prague /\ ContextDelegated(c.shape) /\ ~Static(c.shape))
-(* consequence: with the guard on, delegated code cannot advance the account's nonce *)
-GuardProtectsNonce == \A c \in CreateCases : (c.guard /\ c.prague) => ~c.nonce_advanced
+     (c.frame # FrameResult(c.path, FALSE, c.fork)) <=> (c.guard /\ PragueOrLater(c.fork) /\ c.context_delegated /\ ~Static(c.path))
+(* consequence: with the guard on, delegated code cannot advance a delegated account's nonce *)
+GuardProtectsNonce == \A c \in CreateCases : (c.guard /\ PragueOrLater(c.fork) /\ c.context_delegated) => ~c.nonce_advanced
 
 (* ------------------------------- Part 2 ------------------------------- *)
 Min(a, b) == IF a < b THEN a ELSE b
